@@ -167,7 +167,7 @@ def random_spec(rng):
             spec["excludes"] = "mg"
         if rng.random() < 0.3:
             spec["group"] = "mg"
-        elif rng.random() < 0.2:
+        elif rng.random() < 0.35:
             spec["group"] = "xmg"        # a group whose name merely *contains* the other group's name
         if rng.random() < 0.25:
             spec["inclusive"] = False
@@ -187,7 +187,7 @@ def random_spec(rng):
             return "_"
         if r < 0.7:
             return ""
-        if r < 0.8 and any((v.get("group") or "") == "mg" for v in marks.values()):
+        if r < 0.88 and any((v.get("group") or "") == "mg" for v in marks.values()):
             return "mg"
         return " ".join(rng.sample(mark_names, rng.randint(1, len(mark_names))))
 
@@ -480,7 +480,7 @@ def mutate_spec(rng, spec):
             for m in list(marks)[rng.randint(0, len(marks)):]:
                 del marks[m]
             if rng.random() < 0.3:
-                spec.pop("marks")
+                spec.pop("marks", None)
                 marks = {}
         elif k == "node-marks":
             nodes[rng.choice(nnames)]["marks"] = rng.choice(["_", "", None] + mnames + groups)
